@@ -18,6 +18,12 @@ RULE = (
     "AND a read returned fewer elements than requested AND more than `depth` elements were written since the last "
     "clear (pointer wrap-around); label nt_unequal counts the non-trivial cases with read_width != write_width"
 )
+RULE += (
+    "  In one case of three a SECOND, independent caller (its own transaction) of one exclusive method (read / write) requests "
+    "in some of the cycles in which the first caller does, with the same arguments: at most one of the two may be served "
+    "and the outcome must be that of a single request."
+)
+
 ASSUMPTIONS = [
     "amaranth.sim.Simulator is the trusted execution model",
     "readiness is judged behaviourally: a requested call that is not accepted counts as 'not ready'",
